@@ -1003,11 +1003,13 @@ class LanguageGraph():
                         'stepExpressions' in \
                         attack_steps[step['name']]['reaches']:
                     attack_steps[step['name']]['reaches']['stepExpressions'].\
-                        extend(step['reaches']['stepExpressions'])
+                        extend(copy.deepcopy(
+                            step['reaches']['stepExpressions']))
                 else:
                     attack_steps[step['name']]['reaches'] = {
                         'overrides': False,
-                        'stepExpressions': step['reaches']['stepExpressions']
+                        'stepExpressions': copy.deepcopy(
+                            step['reaches']['stepExpressions'])
                     }
 
 
